@@ -1276,23 +1276,18 @@ Proof.
                       (upd (s_inbox st) c None) (upd (s_enc st) c None)).
   { destruct x as [a|b]; simpl in H; fold ext in H.
     - destruct (k_st (g_calls (s_g st) c)) eqn:E; try discriminate. simpl in H.
-      eexists _, _. split; [reflexivity|]. split; [|split; [|split; [|split; [|split]]]].
-      6:{ simpl. unfold last_sent in H. simpl in H. rewrite upd_same in H. simpl in H.
-          inversion H. reflexivity. }
-      + simpl. intros m EE; inversion EE; subst. eauto.
-      + reflexivity.
-      + discriminate.
-      + discriminate.
-      + simpl. rewrite E. reflexivity.
+      exists (CS_exec1 a (g_cells (s_g st) (xa_stmt a))),
+             (Q_execute (mk_exec_frame (ST (xa_stmt a)) ext a (g_cells (s_g st) (xa_stmt a)))).
+      split; [reflexivity|]. split; [simpl; intros m EE; inversion EE; subst; eauto|].
+      split; [reflexivity|]. split; [discriminate|]. split; [discriminate|].
+      split; [simpl; rewrite E; reflexivity|].
+      unfold last_sent in H. simpl in H. rewrite upd_same in H. simpl in H. inversion H. reflexivity.
     - destruct (k_st (g_calls (s_g st) c)) eqn:E; try discriminate. simpl in H.
-      eexists _, _. split; [reflexivity|]. split; [|split; [|split; [|split; [|split]]]].
-      6:{ simpl. unfold last_sent in H. simpl in H. rewrite upd_same in H. simpl in H.
-          inversion H. reflexivity. }
-      + simpl. discriminate.
-      + reflexivity.
-      + discriminate.
-      + discriminate.
-      + simpl. rewrite E. reflexivity. }
+      exists (CS_batch b), (Q_batch (mk_batch_frame ST b)).
+      split; [reflexivity|]. split; [simpl; discriminate|].
+      split; [reflexivity|]. split; [discriminate|]. split; [discriminate|].
+      split; [simpl; rewrite E; reflexivity|].
+      unfold last_sent in H. simpl in H. rewrite upd_same in H. simpl in H. inversion H. reflexivity. }
   destruct G as [cs [q [Eidle [Hsn [W [NI [ND [HG ->]]]]]]]]. clear H.
   constructor; simpl.
   - eapply greach_step; eassumption.
